@@ -711,6 +711,12 @@ class Interp:
         self._kill_store(st, target, fr)
         if isinstance(target, ast.Name) and aug is None and _is_fresh_empty(value):
             st.facts[('truth', target.id)] = False
+        if isinstance(target, ast.Name) and aug is None and isinstance(
+                value, (ast.ListComp, ast.SetComp, ast.DictComp)) and \
+                len(value.generators) == 1 and not value.generators[0].is_async:
+            # a comprehension result is empty exactly when no element was produced
+            st.facts[('truth', target.id)] = bool(
+                st.facts.pop(('comp-elements', str(id(value))), False))
         if isinstance(target, ast.Name) and aug is None and isinstance(value, ast.Constant) \
                 and (isinstance(value.value, bool) or value.value is None):
             # a local flag: private to this frame, it keeps its value across suspensions
@@ -873,6 +879,11 @@ class Interp:
                         break
             for key in dead:
                 del st.facts[key]
+            if recv is not None and '.' not in recv and isinstance(call, ast.Call) and \
+                    call.func.attr in ('append', 'appendleft', 'add', 'insert') and \
+                    call.args:
+                # a local container that just received an element is not empty
+                st.facts[('truth', recv)] = True
             return
         attrs, unknown = None, True
         if callees:
@@ -1040,12 +1051,20 @@ class Interp:
         sts, raised = self._simple([stmt.iter], st, fr)
         results = list(raised)
         frontier = [(s, 0) for s in sts]
+        source = _dotted(stmt.iter) if isinstance(stmt.iter, (ast.Name, ast.Attribute)) \
+            else None
         while frontier:
             s, count = frontier.pop()
-            # exhausted
-            done = s.fork()
-            self._emit(done, 'iter-end', stmt, fr)
-            results.extend(self.exec_block(stmt.orelse, done, fr))
+            # exhausted -- two loops over the same unchanged sequence run equally often
+            known = s.facts.get(('itercount', source)) if source else None
+            if known is None or known == count:
+                done = s.fork()
+                if source:
+                    done.facts[('itercount', source)] = count
+                self._emit(done, 'iter-end', stmt, fr)
+                results.extend(self.exec_block(stmt.orelse, done, fr))
+            if known is not None and count >= known:
+                continue
             if count >= self.loop_bound:
                 self.stats['truncated'] += 1
                 continue
@@ -2017,14 +2036,24 @@ class Interp:
         sts = self.ev(gens[0].iter, sts, fr, raised)
         out = []
         simple = len(gens) == 1 and not gens[0].is_async
+        produced = ('comp-elements', str(id(expr)))
+        source = _dotted(gens[0].iter) if simple and isinstance(
+            gens[0].iter, (ast.Name, ast.Attribute)) else None
         for s in sts:
+            s.facts.pop(produced, None)
             frontier = [(s, 0)]
             while frontier:
                 cur, count = frontier.pop()
-                done = cur.fork()
-                if simple:
-                    self._emit(done, 'iter-end', gens[0], fr, comprehension=expr)
-                out.append(done)
+                known = cur.facts.get(('itercount', source)) if source else None
+                if known is None or known == count:
+                    done = cur.fork()
+                    if source:
+                        done.facts[('itercount', source)] = count
+                    if simple:
+                        self._emit(done, 'iter-end', gens[0], fr, comprehension=expr)
+                    out.append(done)
+                if known is not None and count >= known:
+                    continue
                 if count >= self.loop_bound:
                     continue
                 if simple:
@@ -2059,6 +2088,7 @@ class Interp:
                 if simple:
                     for p in passed:
                         self._emit(p, 'element', elts[0], fr, comprehension=expr)
+                        p.facts[produced] = True
                 frontier.extend((p, count + 1) for p in passed)
         return out
 
